@@ -429,7 +429,7 @@ def values(prop, tier, seed, replay):
         jobs = [(rep["kind_name"], [rep["schedule"]])] if rep.get("kind") == "values-schedule" else []
     else:
         jobs = []
-        for kind in ("append", "set", "bytype"):
+        for kind in ("append", "set", "bytype", "bytype_tails"):
             cfg = "MC_Values_%s.cfg" % kind
             if tier == "thorough":
                 c5 = os.path.join(wd, "MC_Values_%s_d5.cfg" % kind)
@@ -457,7 +457,7 @@ def values(prop, tier, seed, replay):
             for sc in scheds:
                 f.write(json.dumps(sc) + "\n")
         out = os.path.join(wd, "rec-" + kind)
-        rc, o = sh("%s/drive-seq --kind %s --sched %s --out %s" % (bindir, kind, sf, out), timeout=3000)
+        rc, o = sh("%s/drive-seq --kind %s --sched %s --out %s" % (bindir, kind.split("_")[0], sf, out), timeout=3000)
         stats.append({"kind": kind, **json.loads(o.strip().splitlines()[-1])})
         tracefile = os.path.join(out, "trace.ndjson")
         bad, consumed, n, _ = tlc_trace("TraceValues.tla", "TraceValues.cfg", tracefile, wd, timeout=6000)
